@@ -67,8 +67,9 @@ def _eval_requirement(body, ap, req):
     for g in ap['gates']:
         if not gate_is_comparison(g):
             continue
-        if not g.dom and not req.get('any_path'):
-            continue      # a check on only some of the paths to the accept site does not gate it
+        if g.dom is not True and not req.get('any_path') and not (g.dom == 'loop' and req.get('per_item')):
+            continue      # a check on only some of the paths to the accept site does not gate it (per_item: a check every iteration of a
+                          # decoding loop passes gates what the loop decodes)
         if req.get('quantifier') == 'forall' and g.kind == 'call':
             w = g.what or ''
             # a validation of *every* element: all(pred) must hold, or any(violates) must not
@@ -97,6 +98,9 @@ def _eval_requirement(body, ap, req):
             if not any(any(str(c) == x or x.endswith('::' + str(c)) for x in cs) for c in const_any):
                 continue
         missing = [s for s, r in zip(req.get('cover', []), cover) if not has(atoms, r)]
+        missing += [a[1] for a in req.get('cover_raw', []) if a not in atoms]
+        if req.get('per_element') and not (g.quant or g.dom == 'loop' or (g.kind == 'call' and (g.what or '').endswith(('Iterator::any', 'Iterator::all')))):
+            continue      # a list is tested by a test of each element
         if pure:
             allowed = [parse_req(body, s) for s in pure]
             extra = [a for a in p_atoms(atoms) if not any(atom_matches(a, r) for r in allowed)]
@@ -122,7 +126,7 @@ def path_is_exempt(body, ap, exempt):
         return False
     cover = [parse_req(body, s) for s in exempt.get('cover', [])]
     for g in ap['gates']:
-        if g.kind == 'call' and g.dom and any(c in (g.what or '') for c in exempt['gate_callee']):
+        if g.kind == 'call' and g.dom is True and any(c in (g.what or '') for c in exempt['gate_callee']):
             if all(has(g.all_atoms(), r) for r in cover) and g.truth == exempt.get('truth', True):
                 return True
     return False
@@ -158,6 +162,55 @@ def rule_accept_requirements(ctx, table, cfg='prod-all', rule='RF-D'):
                      fact={'accept_paths': len(aps), 'satisfied': n_ok, 'exempt': n_ex,
                            'unsatisfied': [{'accept_block': b, 'closest_gate': w[0] if w else None, 'missing': w[1] if w else req.get('cover')} for b, w in fails][:4]},
                      expected={'cover': req.get('cover'), 'gate': req.get('gate_callee') or req.get('gate_op')})
+
+
+DECODE_SITES = ('::from_bytes_be', '::from_be_bytes', '::from_bytes', '::parse_g1_projective', '::parse_g2_projective_compressed', '::parse_g2_projective_uncompressed', '::from_compressed', '::from_uncompressed',
+                '::from_okm', '::try_from', '::try_into')
+
+
+def rule_decoded_values_tested(ctx, table, cfg='prod-all', rule='RF-D'):
+    """A decoder refuses the excluded value (identity, zero) of *each* value it decodes: every member of the object it returns comes from one or
+    more decoding calls, and for each of those calls a refusing test of the tabled kind looks at what that call returned (a list: a test of each
+    element).  Told apart by call-site atoms (Engine(sites=..)), since all members come from the same octets.  Members whose decoding call cannot be
+    named (built some other way) are undecided."""
+    from bbs_tables import IDENT_ALTS, ZERO_ALTS
+    prog = ctx.prog(cfg)
+    ga = ctx.gates_sites(DECODE_SITES, cfg)
+    eng = ga.eng
+    n = 0
+    for fn, adt_suffix, fields in table:
+        body = resolve_fn(prog, fn)
+        fd = eng.fndep(body.path)
+        aggs = [s['rv'] for bi, s in body.stmts() if s['k'] == 'assign' and s['rv']['k'] == 'agg' and s['rv'].get('ak') == 'adt'
+                and (s['rv']['name'] == adt_suffix or s['rv']['name'].endswith('::' + adt_suffix))]
+        aps = ga.accept_paths(body.path)
+        for f, kind in fields:
+            key = '%s#tested:%s' % (body.path, f)
+            what = 'the decoded %s is refused when it is %s (a test looks at what its own decoding call returned)' % (f, 'the identity' if kind == 'identity' else 'zero')
+            if len(aggs) != 1 or not aps:
+                yield Ob(rule, key, None, what, body.span, fact='the returned object is not put together in this function', expected='one aggregate')
+                continue
+            agg = aggs[0]
+            names = [str(x) for x in agg['fields']]
+            if f not in names:
+                raise AnchorMissing('%s has no member %s' % (adt_suffix, f))
+            op = agg['ops'][names.index(f)]
+            own = body.path + '#'
+            sites = sorted(a for a in fd.read_op(op) if a[0] == 'site' and (a[1].startswith(own) or a[1].startswith(body.path + '::{closure')))
+            if not sites:
+                yield Ob(rule, key, None, what, body.span, fact='no decoding call of this function found behind the member', expected='>= 1 decoding call')
+                continue
+            n += 1
+            is_list = body.local_ty(op['pl']['l']).startswith('std::vec::Vec<') if op['k'] in ('copy', 'move') and not op['pl'].get('p') else False
+            bad = []
+            for ap in aps:
+                for st in sites:
+                    req = {'id': f, 'alts': IDENT_ALTS if kind == 'identity' else ZERO_ALTS, 'cover_raw': [st], 'per_item': True, 'per_element': is_list}
+                    ok, wit = eval_requirement(body, ap, req)
+                    if not ok:
+                        bad.append({'accept_block': ap['block'], 'decoding_call': st[1]})
+            yield Ob(rule, key, not bad, what, body.span, fact={'decoding_calls': [s_[1] for s_ in sites], 'untested': bad[:4]}, expected='every decoding call tested')
+    yield Ob(rule, 'crate#decoded-members-examined', n >= 8, 'decoded members whose decoding call was named', '', fact=n, expected='>= 8', nontrivial=False)
 
 
 def rule_all_fields_gate(ctx, entry_suffix, param, adt_suffix, cfg='prod-all', rule='RF-K', skip=(), extra_prefix=()):
